@@ -30,7 +30,7 @@ func init() {
 		Level:     "exploration",
 		Technique: "differential oracle (strconv, encoding/hex, arithmetic) over exhaustive short tokens and generated values; panic monitor",
 		Rule: "cases 0..31 enumerate all tokens of length 0..L (L=5 quick, 6 thorough) over a 15-symbol hostile alphabet, each through Uint64/Byte/Bytes.UnmarshalJSON directly and through goccy/go-json; " +
-			"other cases generate uint64 spellings (boundaries, nibble patterns, random; random letter case; leading zeros up to 16 digits), byte strings 0..8KiB, reuse sequences into one destination, bint pads 1..32. " +
+			"other cases generate uint64 spellings (boundaries, nibble patterns, random; random letter case; leading zeros up to 16 digits and, one value in five, up to 80), byte strings 0..8KiB, reuse sequences into one destination, bint pads 1..32. " +
 			"A signature is (family, decoder, outcome class, size class); trivial = input rejected before reaching the decoder body.",
 		Assumptions: []string{
 			"a quantity has at most 16 significant hex digits; longer all-hex strings are only required not to panic, longer strings with a non-hex character are required to fail (statement)",
@@ -117,8 +117,9 @@ func c17Token(c *vk.Case, tok []byte, viaJSON bool) {
 					c.Violate("uint64:nonhex-accepted:"+posClass(body), map[string]any{"token": string(tok), "got": o.u},
 						"%s accepted %q which contains a non-hex character (got %d)", name, tok, o.u)
 				}
-			case len(body) >= 1 && len(body) <= 16:
-				want, _ := strconv.ParseUint(string(body), 16, 64)
+			case len(body) >= 1 && len(strings.TrimLeft(string(body), "0")) <= 16:
+				// (any number of leading zeros: a quantity padded to 32 bytes still spells a 64-bit value)
+				want, _ := strconv.ParseUint("0"+strings.TrimLeft(string(body), "0"), 16, 64)
 				c.Obs("uint64_exact", 1)
 				if o.err != nil || o.u != want {
 					c.Violate("uint64:wrong-value", map[string]any{"token": string(tok), "got": o.u, "want": want, "err": fmt.Sprint(o.err)},
@@ -311,6 +312,12 @@ func c17Run(c *vk.Case) {
 			// leading zeros up to 16 digits total
 			if pad := 16 - len(digits); pad > 0 && r.Chance(1, 2) {
 				digits = strings.Repeat("0", r.Intn(pad+1)) + digits
+			}
+			// … and beyond: a quantity padded with zeros to 32 bytes (or any other width) is still a spelling of
+			// the same 64-bit value
+			if r.Chance(1, 5) {
+				digits = strings.Repeat("0", vk.Pick(r, []int{17, 18, 24, 32, 40, 64, r.Range(17, 80)})-min(16, len(digits))) + digits
+				c.Obs("quantities_padded_beyond_16_digits", 1)
 			}
 			db := []byte(digits)
 			mode := r.Intn(3)
